@@ -441,6 +441,17 @@ func runC29(c *Ctx) {
 		if !nonIO {
 			return
 		}
+		// setReadRemaining only fails for negative values: a length widened from 16 unsigned bits
+		// (or the 7-bit field) cannot be negative, so that error return is unreachable
+		onlyNarrow := true
+		for _, o := range origins {
+			if !(strings.Contains(o, "setReadRemaining(") && strings.Contains(o, "Uint16(")) {
+				onlyNarrow = false
+			}
+		}
+		if onlyNarrow {
+			return
+		}
 		d = strings.Join(origins, " | ")
 		n++
 		target := ssa.Instruction(r)
